@@ -135,6 +135,14 @@ func record(f *family, c *ctx) error {
 		}
 	}
 	results := make([][]ev, len(cases))
+	// cases marked "serial" run first, one at a time, with nothing else of the library running in this process:
+	// histories whose point is that NOTHING happens between two calls (package-level state of the library would
+	// otherwise be refreshed by the other cases executing concurrently)
+	for k := range cases {
+		if cases[k]["serial"] == true && k%pn == pi {
+			results[k] = f.exec(c, cases[k])
+		}
+	}
 	workers := runtime.NumCPU()
 	if f.serial || c.arg == "measure" {
 		workers = 1
@@ -150,7 +158,7 @@ func record(f *family, c *ctx) error {
 				if k >= len(cases) {
 					return
 				}
-				if k%pn != pi {
+				if k%pn != pi || cases[k]["serial"] == true {
 					continue
 				}
 				results[k] = f.exec(c, cases[k])
